@@ -1583,7 +1583,9 @@ pub fn run_c10(tier: Tier) -> i32 {
     for b in bases {
         let base = Pos::from_fen(b).unwrap();
         let mut layer: Vec<Vec<Mv>> = vec![vec![]];
-        for _ in 0..hist_len {
+        // (the bases with castling rights need one more ply: castle, then the position after it twice more)
+        let len_here = if tier == Tier::Quick && base.castle != 0 && base.piece_count() < 10 { hist_len + 1 } else { hist_len };
+        for _ in 0..len_here {
             let mut next = Vec::new();
             for h in &layer {
                 let mut p = base.clone();
